@@ -266,6 +266,11 @@ type stopped struct{}
 // Stop ends the current path (used after a crash point has been checked).
 func Stop() { panic(stopped{}) }
 
+// ConcreteRandom: under the engine, bytes read from crypto/rand.Reader (IVs, salts) are fresh solver
+// variables by default; after ConcreteRandom(true) they are a fixed concrete sequence (used where the
+// random bytes only multiply paths). Natively a no-op: the real generator runs.
+func ConcreteRandom(on bool) {}
+
 // Symbolic reports whether the harness runs under the symbolic engine with symbolic draws.
 func Symbolic() bool { return false }
 
